@@ -23,6 +23,7 @@ func init() {
 			g14ReservedBeforeNaming(c)
 			g25FieldRendering(c.Repo, c.Rep)
 			g27ProgressMeasure(c.Repo, c.Rep)
+			g15StringCuts(c.Repo, c.Rep)
 			g30GeneratorStateless(c.Repo, c.Rep)
 			// which operator or helper is emitted for a component is decided by these predicates: accepting a type Go cannot
 			// compare or copy gives text that does not type-check
@@ -170,6 +171,7 @@ func init() {
 			g16VisitAssertion(c.Repo, c.Rep)
 			g20AliasInjective(c)
 			runG15(c.Repo, c.Rep)
+			g15StringCuts(c.Repo, c.Rep)
 			runG9(c, "equal.canEqual", "deepcopy.canCopy", "contains.canEqual", "derive.IsComparable")
 			runR_C09(c)
 		},
@@ -203,6 +205,7 @@ func init() {
 			g17ArgTypesFromDeclaration(c)
 			g16Eq(c)
 			g29EqDefaults(c.Repo, c.Rep)
+			g15StringCuts(c.Repo, c.Rep)
 			g21ReserveEveryCalledName(c.Repo, c.Rep)
 			// "fails exactly when …": a detected conflict or duplicate must reach the exit status
 			runG1(c.Repo, c.Rep)
